@@ -31,14 +31,19 @@ type rtpCodec struct {
 	name string // label
 	cap  webrtc.RTPCodecCapability
 	fam  int // descriptor family of the generator
+	// a profile the group's codec list does not name: the publisher offers nothing else
+	unlisted bool
 }
 
 var rtpCodecs = []rtpCodec{
-	{"video/VP8", webrtc.RTPCodecCapability{MimeType: "video/VP8", ClockRate: 90000}, 0},
-	{"video/VP9", webrtc.RTPCodecCapability{MimeType: "video/VP9", ClockRate: 90000, SDPFmtpLine: "profile-id=0"}, 1},
-	{"video/AV1", webrtc.RTPCodecCapability{MimeType: "video/AV1", ClockRate: 90000}, 2},
-	{"video/H264", webrtc.RTPCodecCapability{MimeType: "video/H264", ClockRate: 90000, SDPFmtpLine: "level-asymmetry-allowed=1;packetization-mode=1;profile-level-id=42e01f"}, 3},
-	{"audio/opus", webrtc.RTPCodecCapability{MimeType: "audio/opus", ClockRate: 48000, Channels: 2, SDPFmtpLine: "minptime=10;useinbandfec=1;stereo=1;sprop-stereo=1"}, 4},
+	{"video/VP8", webrtc.RTPCodecCapability{MimeType: "video/VP8", ClockRate: 90000}, 0, false},
+	{"video/VP9", webrtc.RTPCodecCapability{MimeType: "video/VP9", ClockRate: 90000, SDPFmtpLine: "profile-id=0"}, 1, false},
+	{"video/AV1", webrtc.RTPCodecCapability{MimeType: "video/AV1", ClockRate: 90000}, 2, false},
+	{"video/H264", webrtc.RTPCodecCapability{MimeType: "video/H264", ClockRate: 90000, SDPFmtpLine: "level-asymmetry-allowed=1;packetization-mode=1;profile-level-id=42e01f"}, 3, false},
+	{"audio/opus", webrtc.RTPCodecCapability{MimeType: "audio/opus", ClockRate: 48000, Channels: 2, SDPFmtpLine: "minptime=10;useinbandfec=1;stereo=1;sprop-stereo=1"}, 4, false},
+	// a profile the group's codec list does not name (H.264 High): the server has no payload
+	// type for it; that is the publisher's problem, not the receivers'
+	{"video/H264-high", webrtc.RTPCodecCapability{MimeType: "video/H264", ClockRate: 90000, SDPFmtpLine: "level-asymmetry-allowed=1;packetization-mode=1;profile-level-id=640c1f"}, 3, true},
 }
 
 func writeRTPGroups(s *vsrv.Server) {
@@ -90,6 +95,12 @@ func newRTPPeer(c *wsc, api *webrtc.API) *rtpPeer {
 		}
 	}()
 	return p
+}
+
+func (p *rtpPeer) downCount() int {
+	p.mu.Lock()
+	defer p.mu.Unlock()
+	return len(p.downs)
 }
 
 func (p *rtpPeer) shutdown() {
@@ -440,6 +451,15 @@ func (w *world) rtpSession(i int, api *webrtc.API, packets int) {
 		pub.Send(vclient.Msg{"type": "groupaction", "kind": "record", "source": pub.ID})
 	}
 	run.Note(fmt.Sprintf("rtp session %d: %s publishes one %s track in %s", i, pub.ID, cd.name, g))
+	if cd.unlisted {
+		// this publisher's offer contains the codec with that profile only (a hardware encoder)
+		me := &webrtc.MediaEngine{}
+		if err := me.RegisterCodec(webrtc.RTPCodecParameters{RTPCodecCapability: cd.cap, PayloadType: 102}, webrtc.RTPCodecTypeVideo); err != nil {
+			fail("RegisterCodec: " + err.Error())
+			return
+		}
+		pp.api = webrtc.NewAPI(webrtc.WithMediaEngine(me))
+	}
 	upPC, track, why := pp.publish(fmt.Sprintf("b%d-rtp%d-up", w.batch, i), cd)
 	if track == nil {
 		fail(why)
@@ -495,6 +515,11 @@ func (w *world) rtpSession(i int, api *webrtc.API, packets int) {
 	// well-formed start so that the server creates the track and offers it to the subscribers
 	deadline := time.Now().Add(30 * time.Second)
 	for n := 0; sp.downPackets.Load() == 0 || wp.downPackets.Load() == 0; n++ {
+		if cd.unlisted && n >= 200 {
+			// the server has no payload type for this profile: whether the receivers get the
+			// media is not the question, whether they stay connected is
+			break
+		}
 		// every third session starts in the middle of a stream: delta frames before the first key frame
 		send(goodPayload(cd, n, !(i%3 == 1 && n < 12)), "well-formed", false)
 		time.Sleep(10 * time.Millisecond)
@@ -505,6 +530,12 @@ func (w *world) rtpSession(i int, api *webrtc.API, packets int) {
 	}
 	run.Count("rtp_sessions_established", 1)
 	run.Count("rtp_sessions_established:"+cd.name, 1)
+	if cd.unlisted {
+		run.Count("unlisted_profile_streams_published", 1)
+		if sp.downCount() > 0 && wp.downCount() > 0 {
+			run.Count("unlisted_profile_streams_offered_to_the_receivers", 1)
+		}
+	}
 	scratch := make([]byte, 1300, 8192)
 	for n := 0; n < packets; n++ {
 		payload, class := hostilePayload(cd, r, scratch)
